@@ -168,7 +168,7 @@ def compactAdjacent (prog : NList) : Bool :=
 
 /-- classes that explain a normal-mode failure, in reporting order (the classes of the defects repaired
 since — number-literal-next-to-dot, line-comment-then-same-line-comment, open-ended-colon-outside-index,
-string-with-abfv-control-byte, unclosed-block-comment-ending-in-star-slash, illegal-token-as-parameter, dotdot-after-dot — are no longer listed: a failure there is unclassified again) -/
+string-with-abfv-control-byte, unclosed-block-comment-ending-in-star-slash, illegal-token-as-parameter (parameter lists are checked with okParamList since 8f93dd9), dotdot-after-dot — are no longer listed: a failure there is unclassified again) -/
 def normalClasses (prog : NList) : List String :=
   (if stmtStartsWithPrefixOp prog then ["statement-starts-with-prefix-operator"] else []) ++
   (if commentInExpr prog then ["comment-inside-expression"] else []) ++
